@@ -375,6 +375,9 @@ spif_ustr_append(spif_ustr_t self, spif_ustr_t other)
     ASSERT_RVAL(!SPIF_USTR_ISNULL(self), FALSE);
     REQUIRE_RVAL(!SPIF_USTR_ISNULL(other), FALSE);
     if (other->size && other->len) {
+        if (!self->size) {
+            self->size = 1;
+        }
         self->size += other->size - 1;
         self->s = (spif_charptr_t) REALLOC(self->s, self->size);
         memcpy(self->s + self->len, SPIF_USTR_STR(other), other->len + 1);
@@ -406,6 +409,9 @@ spif_ustr_append_from_ptr(spif_ustr_t self, spif_charptr_t other)
     REQUIRE_RVAL((other != (spif_charptr_t) NULL), FALSE);
     len = strlen((const char *) other);
     if (len) {
+        if (!self->size) {
+            self->size = 1;
+        }
         self->size += len;
         self->s = (spif_charptr_t) REALLOC(self->s, self->size);
         memcpy(self->s + self->len, other, len + 1);
@@ -567,6 +573,11 @@ spif_ustr_prepend(spif_ustr_t self, spif_ustr_t other)
     ASSERT_RVAL(!SPIF_USTR_ISNULL(self), FALSE);
     REQUIRE_RVAL(!SPIF_USTR_ISNULL(other), FALSE);
     if (other->size && other->len) {
+        if (!self->size) {
+            self->size = 1;
+            self->s = (spif_charptr_t) MALLOC(self->size);
+            self->s[0] = 0;
+        }
         self->size += other->size - 1;
         self->s = (spif_charptr_t) REALLOC(self->s, self->size);
         memmove(self->s + other->len, self->s, self->len + 1);
@@ -599,6 +610,11 @@ spif_ustr_prepend_from_ptr(spif_ustr_t self, spif_charptr_t other)
     REQUIRE_RVAL((other != (spif_charptr_t) NULL), FALSE);
     len = strlen((const char *) other);
     if (len) {
+        if (!self->size) {
+            self->size = 1;
+            self->s = (spif_charptr_t) MALLOC(self->size);
+            self->s[0] = 0;
+        }
         self->size += len;
         self->s = (spif_charptr_t) REALLOC(self->s, self->size);
         memmove(self->s + len, self->s, self->len + 1);
